@@ -521,6 +521,11 @@ func (g *Gen) genTx(w *World) []TxSpec {
 		return []TxSpec{g.wrap(w, m)}
 	case "str":
 		m := g.strMsg(w)
+		if m.Tag == "whole_balance" && len(m.S) == 1 {
+			away := MsgSpec{T: "bank.send", A: m.A, B: g.otherActor(m.A), Amt: m.S[0], Denom: m.Denom, Tag: "whole_balance"}
+			m.S = nil
+			return []TxSpec{{Signer: m.A, Gas: ampleGas, Msgs: []MsgSpec{away}}, {Signer: m.A, Gas: ampleGas, Msgs: []MsgSpec{m}}}
+		}
 		return []TxSpec{g.wrap(w, m)}
 	case "gov":
 		return []TxSpec{g.govTx(w)}
@@ -1116,10 +1121,12 @@ func (g *Gen) strMsg(w *World) MsgSpec {
 			denom = Denom3
 		}
 		if s >= 0 && g.pct(6) {
-			// everything the sender can spend of that denomination (sent without a transaction fee)
-			if bal := w.Ref.App.BankKeeper.SpendableCoins(w.Ctx(), AddrOf(w.Actors, s)).AmountOf(denom); bal.IsPositive() {
+			// everything the sender can spend of that denomination: the sender first moves all but a
+			// modest remainder elsewhere, then tops up with exactly what is left (both without a fee)
+			if bal := w.Ref.App.BankKeeper.SpendableCoins(w.Ctx(), AddrOf(w.Actors, s)).AmountOf(denom).BigInt(); bal.Cmp(amt) > 0 {
 				w.Fault("input.topup_whole_balance")
-				return MsgSpec{T: "str.topup", A: s, B: r, Amt: bal.String(), Denom: denom, Tag: "whole_balance"}
+				away := new(big.Int).Sub(bal, amt)
+				return MsgSpec{T: "str.topup", A: s, B: r, Amt: amt.String(), Denom: denom, Tag: "whole_balance", S: []string{away.String()}}
 			}
 		}
 		return MsgSpec{T: "str.topup", A: s, B: r, Amt: amt.String(), Denom: denom}
